@@ -45,6 +45,7 @@ const (
 	KCodec          = "Codec"
 	KQMisuse        = "QMisuse"
 	KRegistry       = "Registry"
+	KBatchUse       = "BatchUse"
 )
 
 // API paths (Op.P).
